@@ -61,20 +61,28 @@ impl PlainOptic for Route {
 
 /// the same optic through the lax trait
 #[derive(Clone)]
-pub struct LaxOptic(pub Arc<dyn PlainOptic>);
+pub struct LaxOptic(pub Arc<dyn PlainOptic>, pub bool);
+
+impl LaxOptic {
+    /// generator images as they are (false) or handed over un-quotiented, every node occurrence a node of its own
+    /// chained by pending unifications (true)
+    fn image(&self, p: P) -> LOpen<u8, u8> {
+        build_lax(&if self.1 { L::exploded(&p) } else { L::strict(p) })
+    }
+}
 
 impl open_hypergraphs::lax::optic::Optic<u8, u8, u8, u8> for LaxOptic {
     fn fwd_object(&self, o: &u8) -> Vec<u8> {
         self.0.fobj(*o)
     }
     fn fwd_operation(&self, a: &u8, source: &[u8], target: &[u8]) -> LOpen<u8, u8> {
-        build_lax(&L::strict(self.0.fwd(*a, source, target)))
+        self.image(self.0.fwd(*a, source, target))
     }
     fn rev_object(&self, o: &u8) -> Vec<u8> {
         self.0.robj(*o)
     }
     fn rev_operation(&self, a: &u8, source: &[u8], target: &[u8]) -> LOpen<u8, u8> {
-        build_lax(&L::strict(self.0.rev(*a, source, target)))
+        self.image(self.0.rev(*a, source, target))
     }
     fn residual(&self, a: &u8) -> Vec<u8> {
         self.0.residual(*a)
@@ -114,23 +122,27 @@ pub fn check_optic<B: StrictOps>(f: &P, o: Arc<dyn PlainOptic>, tag: &serde_json
     }
     if lax_too {
         use open_hypergraphs::lax::optic::Optic as _;
-        loc.trans(2);
-        let lo = LaxOptic(o.clone());
-        let lf = build_lax(&L::strict(f.clone()));
-        let dec = |r: Result<LOpen<u8, u8>, String>| -> Result<P, String> { r.and_then(|l| catch(|| l.to_strict())).and_then(|s| decode_open(&s)) };
-        match dec(catch(|| lo.map_arrow(lf.clone()))) {
-            Err(m) => loc.violation("lax-optic:failed", json!({"case": case(), "why": m})),
-            Ok(c) => {
-                if !iso(&c, &c_ref) {
-                    loc.violation("lax-optic:misrouted", json!({"case": case(), "got": c, "expected": c_ref}));
+        // generator images as strict diagrams, and handed over un-quotiented (every node occurrence its own node,
+        // chained by pending unifications)
+        for exploded in [false, true] {
+            loc.trans(2);
+            let lo = LaxOptic(o.clone(), exploded);
+            let lf = build_lax(&L::strict(f.clone()));
+            let dec = |r: Result<LOpen<u8, u8>, String>| -> Result<P, String> { r.and_then(|l| catch(|| l.to_strict())).and_then(|s| decode_open(&s)) };
+            match dec(catch(|| lo.map_arrow(lf.clone()))) {
+                Err(m) => loc.violation("lax-optic:failed", json!({"case": case(), "why": m, "images_unquotiented": exploded})),
+                Ok(c) => {
+                    if !iso(&c, &c_ref) {
+                        loc.violation("lax-optic:misrouted", json!({"case": case(), "got": c, "expected": c_ref, "images_unquotiented": exploded}));
+                    }
                 }
             }
-        }
-        match dec(catch(|| lo.map_adapted(lf.clone()))) {
-            Err(m) => loc.violation("lax-adapted:failed", json!({"case": case(), "why": m})),
-            Ok(d) => {
-                if !iso(&d, &d_ref) {
-                    loc.violation("lax-adapted:misrouted", json!({"case": case(), "got": d, "expected": d_ref}));
+            match dec(catch(|| lo.map_adapted(lf.clone()))) {
+                Err(m) => loc.violation("lax-adapted:failed", json!({"case": case(), "why": m, "images_unquotiented": exploded})),
+                Ok(d) => {
+                    if !iso(&d, &d_ref) {
+                        loc.violation("lax-adapted:misrouted", json!({"case": case(), "got": d, "expected": d_ref, "images_unquotiented": exploded}));
+                    }
                 }
             }
         }
@@ -343,7 +355,9 @@ pub fn check_derivative<B: StrictOps>(f: &P, lax_entry: bool, loc: &mut Local) {
     let d = if lax_entry {
         use open_hypergraphs::lax::optic::Optic as _;
         let lf = build_lax(&L::strict(f.clone()));
-        match catch(|| LaxOptic(o.clone()).map_adapted(lf).to_strict()).and_then(|s| decode_open(&s)) {
+        // every second circuit with the lens images handed over un-quotiented
+        let exploded = (f.nodes.len() + f.edges.len()) % 2 == 1;
+        match catch(|| LaxOptic(o.clone(), exploded).map_adapted(lf).to_strict()).and_then(|s| decode_open(&s)) {
             Ok(d) => d,
             Err(why) => return loc.violation("derivative:lax-map_adapted-failed", json!({"case": case(), "why": why})),
         }
